@@ -1,6 +1,10 @@
 use crate::common::{machinery_failure, Run};
 use serde_json::Value;
 
+pub mod c01;
+pub mod c02;
+pub mod c04;
+pub mod c11;
 pub mod c20;
 pub mod c21;
 pub mod c22;
@@ -8,10 +12,16 @@ pub mod c23;
 pub mod c25;
 pub mod c26;
 pub mod c27;
+pub mod c35;
+pub mod c37;
 pub mod c40;
 
 pub fn run(id: &str, run: &mut Run) {
     match id {
+        "C01" => c01::run(run),
+        "C02" => c02::run(run),
+        "C04" => c04::run(run),
+        "C11" => c11::run(run),
         "C20" => c20::run(run),
         "C21" => c21::run(run),
         "C22" => c22::run(run),
@@ -20,12 +30,18 @@ pub fn run(id: &str, run: &mut Run) {
         "C26" => c26::run(run),
         "C27" => c27::run(run),
         "C40" => c40::run(run),
+        "C35" => c35::run(run),
+        "C37" => c37::run(run),
         _ => machinery_failure(&format!("no check for property {}", id)),
     }
 }
 
 pub fn replay(id: &str, case: &Value, run: &mut Run) {
     match id {
+        "C01" => c01::replay(case, run),
+        "C02" => c02::replay(case, run),
+        "C04" => c04::replay(case, run),
+        "C11" => c11::replay(case, run),
         "C20" => c20::replay(case, run),
         "C21" => c21::replay(case, run),
         "C22" => c22::replay(case, run),
@@ -34,10 +50,18 @@ pub fn replay(id: &str, case: &Value, run: &mut Run) {
         "C26" => c26::replay(case, run),
         "C27" => c27::replay(case, run),
         "C40" => c40::replay(case, run),
+        "C35" => c35::replay(case, run),
+        "C37" => c37::replay(case, run),
         _ => machinery_failure(&format!("no replay for property {}", id)),
     }
 }
 
-pub fn child(id: &str, _args: &[String]) {
-    machinery_failure(&format!("no child mode for property {}", id))
+pub fn child(id: &str, args: &[String]) {
+    match id {
+        "C01" => c01::child(args),
+        "C11" => c11::child(args),
+        "C04" => c04::child(args),
+        "C02" => c02::child(args),
+        _ => machinery_failure(&format!("no child mode for property {}", id)),
+    }
 }
